@@ -110,7 +110,8 @@ struct C03 : public Driver {
                 if (destructive && gf.fork("empty-expr").chance(1, 10)) { o["expr"] = ""; o["faulted"] = true; }
                 // a parameter value that makes a lazily evaluated global variable abort the transformation part-way
                 if (gated && gf.chance(2, 3)) { unsigned q = (unsigned)gf.below(3); o["expr"] = q == 0 ? std::string("'abort'") : q == 1 ? std::string("'badkey'") : "'" + d.ids[gf.below(std::min<size_t>(d.ids.size(), 14))] + "'"; o["faulted"] = true; } }
-            else if (r < 19) { o["op"] = gf.chance(1, 2) ? "xpath-eval" : "xpath-capi"; std::string e = pickExpr(gf, d.names, dc.deep || dc.manyNames); SrcFault f = SrcFault::fromJson(srcFaultAt(gf, e, destructive)); o["expr"] = applySrcFault(e, f); o["faulted"] = f.destructive(); o["docFault"] = srcFaultAt(gf, d.xml, destructive && gf.chance(1, 3)); { Rng gx = gf.fork("xlia"); o["xercesLiaison"] = gx.chance(1, 3); o["destroyDoc"] = gx.chance(1, 2); o["destroyByDom"] = gx.chance(1, 2); } }
+            else if (r < 19) { o["op"] = gf.chance(1, 2) ? "xpath-eval" : "xpath-capi"; std::string e = pickExpr(gf, d.names, dc.deep || dc.manyNames); SrcFault f = SrcFault::fromJson(srcFaultAt(gf, e, destructive)); o["expr"] = applySrcFault(e, f); o["faulted"] = f.destructive(); o["docFault"] = srcFaultAt(gf, d.xml, destructive && gf.chance(1, 3)); { Rng ge = gf.fork("capi-enc"); static const std::vector<std::string> ce = { "UTF-16", "ISO-8859-1", "x-sim-no-such-encoding", "UTF-16", "US-ASCII" }; if (ge.chance(1, 4)) o["capiEnc"] = ge.pick(ce); }
+                { Rng gx = gf.fork("xlia"); o["xercesLiaison"] = gx.chance(1, 3); o["destroyDoc"] = gx.chance(1, 2); o["destroyByDom"] = gx.chance(1, 2); } }
             else { o["op"] = "capi-transform"; o["docFault"] = srcFaultAt(gf, d.xml, destructive && gf.chance(1, 2)); o["xslFault"] = srcFaultAt(gf, s.xsl, destructive && gf.chance(1, 2)); o["toHandler"] = gf.chance(1, 2);
                 if (gated && gf.chance(1, 2)) { o["abortParam"] = gf.chance(1, 2) ? "'abort'" : "'badkey'"; o["faulted"] = true; } }      // the transformation itself fails part-way, after some output
             ops.push(o);
@@ -236,11 +237,12 @@ struct C03 : public Driver {
                 if (st == 0) {
                     SrcFault f = SrcFault::fromJson(o.at("docFault")); std::string seen = applySrcFault(plan.str("doc"), f);
                     // NUL bytes would end the C string early: a legitimate input as far as the API is concerned
-                    int b = 0; st = XalanEvaluateXPathExpressionAsBoolean(h, o.str("expr").c_str(), "UTF-8", seen.c_str(), &b);
+                    const std::string enc = o.str("capiEnc", "UTF-8");      /* the encoding the caller says the expression is in (the kept expression below is always UTF-8) */
+                    int b = 0; st = XalanEvaluateXPathExpressionAsBoolean(h, o.str("expr").c_str(), enc.c_str(), seen.c_str(), &b);
                     r.status = st; r.out = std::to_string(b); if (st != 0) r.err = "code " + std::to_string(st);
                     XalanXPathHandle keptH = nullptr; int b0 = -1, b1 = -1; int stK = XalanCreateXPath(h, "count(/*) = 1 and not(/nosuch)", "UTF-8", &keptH);
                     if (stK == 0) XalanEvaluateXPathAsBoolean(h, keptH, GOOD_DOC, &b0);
-                    XalanXPathHandle xh = nullptr; int st2 = XalanCreateXPath(h, o.str("expr").c_str(), "UTF-8", &xh);
+                    XalanXPathHandle xh = nullptr; int st2 = XalanCreateXPath(h, o.str("expr").c_str(), enc.c_str(), &xh);
                     if (st2 == 0) { int b2 = 0; XalanEvaluateXPathAsBoolean(h, xh, plan.str("doc").c_str(), &b2); XalanDestroyXPath(h, xh); }
                     if (stK == 0) { int stE = XalanEvaluateXPathAsBoolean(h, keptH, GOOD_DOC, &b1); if (stE != 0 || b0 != b1) res.violate("kept-xpath-changed", st2 == 0 ? "capi:after-create" : "capi:after-failed-create", "a compiled XPath kept through the C API gave " + std::to_string(b0) + " before and " + std::to_string(b1) + " (status " + std::to_string(stE) + ") after XalanCreateXPath of [" + o.str("expr").substr(0, 80) + "]"); XalanDestroyXPath(h, keptH); }
                     XalanDestroyXPathEvaluator(h);
